@@ -227,6 +227,18 @@ def check_c11(out, tier, seed):
                                      ops=[A(x) for x in od] + [dict(k="ren", text="", id="A", id2="D")],
                                      universe=["A", "B", "D"]))
                     n += 1
+                # the link required by a path (in direct and in complement form) before it arrives:
+                # the placeholder link is replaced in every collection it was filed in
+                inv = {"+": "-", "-": "+"}
+                pd = "P\tpd\tA%s,%s%s\t*" % (o1, second, o2)
+                pc = "P\tpc\t%s%s,A%s\t*" % (second, inv[o2], inv[o1])
+                for od in ([pd, *base, l1], [base[0], pc, l1, base[1]], [pc, pd, l1, *base], [*base, pd, pc, l1]):
+                    jobs.append(dict(id="lp-%d" % n, kind="cell", cfg=dict(version="gfa1", vlevel=1),
+                                     ops=[A(x) for x in od] + [dict(k="rm", text="", id="pd", id2=""),
+                                                               dict(k="ren", text="", id="A", id2="D"),
+                                                               dict(k="disc", text=l1.replace("\tA\t", "\tD\t"), id="", id2="")],
+                                     universe=["A", "B", "D", "pd", "pc"]))
+                    n += 1
                 sec = second.lower()
                 g1 = "G\tg1\ta%s\t%s%s\t5\t*" % (o1, sec, o2)
                 g2 = "G\t*\ta%s\t%s%s\t7\t1" % (o1, sec, o2)
@@ -255,7 +267,8 @@ def check_c11(out, tier, seed):
                      "prefix, suffix, inner, whole) as an edge between distinct segments and as a self-edge, "
                      "each loaded in three arrival orders (quick: one rotating order per cell), then rename, "
                      "unrelated removal, removal of the edge; L/C/G lines in all four orientation pairs x "
-                     "{distinct, self, parallel} x three orders")
+                     "{distinct, self, parallel} x three orders; each L shape also required by paths (direct and "
+                     "complement form) before the link arrives, in four orders, then path removal, rename, link removal")
     for t in traces[:2] + traces[-2:]:
         out.samples.append({"trace": t["id"], "calls": [[o["k"], o["text"] or [o["id"], o["id2"]], e["res"]]
                                                         for o, e in zip(t["src"], t["ev"])]})
@@ -302,6 +315,7 @@ def check_c13(out, tier, seed):
     sp = [0, 0]
     nseq = 0
     plan = [("ver", "standard", v) for v in ("none", "gfa1", "gfa2")] + \
+           [("vern", "standard", v) for v in ("none", "gfa1", "gfa2")] + \
            [("rgfa", "rgfa", v) for v in ("none", "gfa1", "gfa2")]
     for catname, dialect, cfgv in plan:
         cat = c.CATALOGUES[catname]
@@ -353,7 +367,8 @@ def check_c13(out, tier, seed):
                 traces_validated_against_impl=len(traces), events_validated=r["states"],
                 evaluations=len(traces), distinct_nontrivial=len(traces), exhaustive=True, max_lines=depth,
                 rule="every sequence of <= %d distinct line kinds over the 16 kinds of the 'ver' catalogue "
-                     "(H without VN, H VN 1.0/2.0/3.0, S GFA1/GFA2 syntax, L C P E F G O U, custom, comment), cut at "
+                     "(H without VN, H VN 1.0/2.0/3.0, S GFA1/GFA2 syntax, L C P E F G O U, custom, comment), the 10 kinds of "
+                     "'vern' (segments whose names look like tags, in both syntaxes, with links/edges/paths over them) and the rGFA catalogue, cut at "
                      "the first refusal, for Gfa(version=None|gfa1|gfa2); each replayed incrementally "
                      "(add_line + process_line_queue) and through whole-document entry points" % depth)
     for t in traces[:2] + traces[-2:]:
